@@ -387,6 +387,19 @@ Proof.
   eapply good_write_inode; eauto; [apply under_app|lia].
 Qed.
 
+(* lsetxattr on the destination: the last component is not followed *)
+Lemma good_lset_xattrs f comps xs f' ok :
+  J f -> Forall plain comps -> lset_xattrs f (out ++ comps) xs = (f', ok) -> good f f'.
+Proof.
+  intros HJ P. pose proof (okpath_out_app comps P) as OK. unfold lset_xattrs.
+  destruct xs as [|x xs]; [intros [= <- <-]; apply good_refl; exact HJ|].
+  destruct (resolve f (out ++ comps) false) as [c|] eqn:R; [|intros [= <- <-]; apply good_refl; exact HJ].
+  apply resolve_ok in R; try assumption. subst c.
+  destruct (nget (names f) (out ++ comps)) as [[i|md|t]|] eqn:E; try (intros [= <- <-]; apply good_refl; exact HJ).
+  destruct (iget (inodes f) i); intros [= <- <-]; [|apply good_refl; exact HJ].
+  eapply good_write_inode; eauto; [apply under_app|lia].
+Qed.
+
 Lemma out_app_nonnil comps : out <> [] -> out ++ comps <> [].
 Proof. destruct out; [contradiction|discriminate]. Qed.
 
@@ -475,9 +488,8 @@ Proof.
   - intros f2 G2 f3 ok3.
     pose proof (good_apply_perm o e f2 comps (proj1 G2) P) as GP.
     assert (G' : good f (apply_perm o e f2 (out ++ comps))) by (eapply good_trans; eassumption).
-    destruct (o_keep_xattr o && N.eqb (e_kind e) 0); [|intros [= <- <-]; exact G'].
-    destruct (e_xattrs e) as [|x xs]; [intros [= <- <-]; exact G'|].
-    intros H. eapply good_trans; [exact G'|]. eapply good_update_inode; [exact (proj1 G')|exact P|exact H].
+    destruct (o_keep_xattr o); [|intros [= <- <-]; exact G'].
+    intros H. eapply good_trans; [exact G'|]. eapply good_lset_xattrs; [exact (proj1 G')|exact P|exact H].
 Qed.
 
 Lemma good_extract_each o : forall es f ok0 f' ok,
